@@ -367,6 +367,12 @@ func (o *openRun) craft() *Payload {
 				}
 			}
 			ts := d.VerifSnapshot().LastBlockTimestamp + uint64(1+rng.Intn(3))*n.Cfg.Inc
+			switch rng.Intn(6) { // nobody checks a proposal's timestamp but the application
+			case 0:
+				ts = uint64(c.Clk.Now) + uint64(1000+rng.Intn(5000))
+			case 1:
+				ts = uint64(c.Clk.Now) / n.Cfg.Inc * n.Cfg.Inc
+			}
 			q := mkReq(ph, pv, fromP, ts, 2000+o.nonce, txs)
 			if fromP == primary {
 				o.props[[2]int{int(ph), int(pv)}] = append(l, q)
